@@ -56,6 +56,7 @@ func init() {
 			"probability model, context formulas, codec geometry, constants = specification; every block gets a fresh check; header/footer/index parsing obligations. " +
 			"NOT decided: correctness of bit-level operation decoding and ring-buffer copying; equality with the reference decoder's output.",
 		run: func(c *Ctx, r *Report) {
+			ruleWriteMatchCE(c, r, "") // matches are copied byte by byte from dist back (overlap, ring wrap)
 			t := getChunkTables(c, r, "")
 			ruleChunkAutomaton(c, r, t, "", "complete")
 			ruleControlByte(c, r, t, "", false)
@@ -105,6 +106,7 @@ func init() {
 			"WriterConfig.fill guarantees SizeInHeader || EOSMarker; encoder.Close writes the end marker exactly when created with the flag; reader window = max(header, " +
 			"configured, 4096); matcher guards; no sink error masked. NOT decided: losslessness of the round trip.",
 		run: func(c *Ctx, r *Report) {
+			ruleWriteMatchCE(c, r, "")
 			ruleLzmaHeaderCodec(c, r, "")
 			ruleLzmaWriterContract(c, r, "")
 			ruleSizeSign(c, r, "")
@@ -138,6 +140,7 @@ func init() {
 			"already reached ends without reading an operation; end-marker plumbing on the writer side. NOT decided: the reference decoder's verdict on the emitted bytes; " +
 			"bit-exactness of the range coder.",
 		run: func(c *Ctx, r *Report) {
+			ruleWriteMatchCE(c, r, "")
 			ruleCoderStates(c, r, "")
 			ruleProbModel(c, r, "")
 			ruleRangeCoder(c, r, "")
